@@ -110,20 +110,20 @@ def setup(E):
         return f"subprobs[{c}][{KINDS[pk]}].{role}"
 
     def AGG(e, role, F, k):
-        """entry e = aggregate of (x, ck) |-> F(x, ck), tag oa(x, ck), over the first k nodes of the enumeration that pass the role's filter"""
+        """entry e = aggregate of (x, ck) |-> F(x, ck) over the first k nodes of the enumeration that pass the role's filter.
+        VALUE level only (lower bound, attained, retained-tag existence); one bundled clause per entry."""
         IN = lambda x: f"(anc({TREE}, {x}) and lvl_idx({TREE}, {x}) < {k} and {filt(role, x)})"
-        WX, WK = "oa_sp(t)", "oa_kind(t)"
-        return [
-            (f"{e}/policies", f"{e}._merge_policy == MergePolicy.MIN and {e}._retention_policy == table.retention_policy"),
-            (f"{e}/wf-any", f"implies({e}._retention_policy == RetentionPolicy.ANY, forall(lambda t, t2: implies(t in {e}._infos and t2 in {e}._infos, t == t2), Tag, Tag))"),
-            (f"{e}/wf-truthy", f"forall(lambda t: implies(t in {e}._infos, tag_truthy(t)), Tag)"),
-            (f"{e}/lower", f"forall(lambda x, ck: implies({IN('x')}, not ({F('x', 'ck')} < {e}._value)), Node, SyntenyAssignment)"),
-            (f"{e}/attained", f"{e}._value == inf or exists(lambda x, ck: {IN('x')} and {F('x', 'ck')} == {e}._value, Node, SyntenyAssignment)"),
-            (f"{e}/tags-sound", f"forall(lambda t: implies(t in {e}._infos, {IN(WX)} and {F(WX, WK)} == {e}._value and t == oa({WX}, {WK})), Tag)"),
-            (f"{e}/tags-all-complete", f"implies(table.retention_policy == RetentionPolicy.ALL, forall(lambda x, ck: implies({IN('x')} and {F('x', 'ck')} == {e}._value, oa(x, ck) in {e}._infos), Node, SyntenyAssignment))"),
-            (f"{e}/nonempty", f"implies(exists(lambda x: {IN('x')}, Node), exists(lambda t: t in {e}._infos, Tag))"),
-            (f"{e}/empty-is-inf", f"implies(not exists(lambda t: t in {e}._infos, Tag), {e}._value == inf)"),
+        parts = [
+            f"{e}._merge_policy == MergePolicy.MIN and {e}._retention_policy == table.retention_policy",
+            f"implies({e}._retention_policy == RetentionPolicy.ANY, forall(lambda t, t2: implies(t in {e}._infos and t2 in {e}._infos, t == t2), Tag, Tag))",
+            f"forall(lambda t: implies(t in {e}._infos, tag_truthy(t)), Tag)",
+            f"forall(lambda x, ck: implies({IN('x')}, not ({F('x', 'ck')} < {e}._value)), Node, SyntenyAssignment)",
+            f"({e}._value == inf or exists(lambda x, ck: {IN('x')} and {F('x', 'ck')} == {e}._value, Node, SyntenyAssignment))",
+            f"implies(exists(lambda x: {IN('x')}, Node), exists(lambda t: t in {e}._infos, Tag))",
+            f"implies(not exists(lambda t: t in {e}._infos, Tag), {e}._value == inf)",
+            f"{e}._value != -inf",
         ]
+        return [(e, " and ".join(f"({p_})" for p_ in parts))]
 
     INV = [
         ("stable", "table.g_val == old(table.g_val) and table.g_tags == old(table.g_tags)"),
@@ -143,12 +143,85 @@ def setup(E):
         ("table-no-neg-inf", "forall(lambda a, b, c: cell3v(table.g_val, a, b, c) != -inf, Node, Node, SyntenyAssignment)"),
         ("required-sets", f"({U} in lca_sets) and ({CH[0]} in lca_sets) and ({CH[1]} in lca_sets)"),
     ]
+    # ---- the six families of joint placements (x, kx) of the left child and (y, ky) of the right child
+    FAMS = [  # (role of child 0, role of child 1, event cost)
+        ("left", "right", "costs[Event.SPECIATION]"), ("right", "left", "costs[Event.SPECIATION]"),
+        ("conserved", "segment", "costs[Event.DUPLICATION]"), ("segment", "conserved", "costs[Event.DUPLICATION]"),
+        ("conserved", "separate", "costs[Event.HORIZONTAL_TRANSFER]"), ("separate", "conserved", "costs[Event.HORIZONTAL_TRANSFER]"),
+    ]
+    CODE_COST = {"costs[Event.SPECIATION]": "costs[NodeEvent.SPECIATION]", "costs[Event.DUPLICATION]": "costs[NodeEvent.DUPLICATION]",
+                 "costs[Event.HORIZONTAL_TRANSFER]": "costs[NodeEvent.HORIZONTAL_TRANSFER]"}
+    INTREE = lambda x, y: f"(rootof({x}) == {TREE} and rootof({y}) == {TREE})"
+
+    def family(pk, i, x, kx, y, ky):
+        r0, r1, cost = FAMS[i]
+        cond = f"({filt(r0, x)} and {filt(r1, y)})"
+        term = f"({cost} + {value(POSTV, 0, pk, r0, x, kx)} + {value(POSTV, 1, pk, r1, y, ky)})"
+        return cond, term
+
+    def cellnew(pk):
+        return f"cell3v(table.g_val, {U}, {S}, {KINDS[pk]})"
+
+    def cellold(pk):
+        return f"cell3v(old(table.g_val), {U}, {S}, {KINDS[pk]})"
+
+    POST = []
+    for pk in ("inh", "lca"):
+        NEWV, OLDV = cellnew(pk), cellold(pk)
+        POST.append((f"{pk}/not-worse-than-old", f"not ({OLDV} < {NEWV})"))
+        disj = []
+        for i in range(6):
+            cond, term = family(pk, i, "x", "kx", "y", "ky")
+            POST.append((f"{pk}/lower-bound/{i}", f"forall(lambda x, kx, y, ky: implies({INTREE('x', 'y')} and {cond}, not ({term} < {NEWV})), Node, SyntenyAssignment, Node, SyntenyAssignment)"))
+            disj.append(f"exists(lambda x, kx, y, ky: {INTREE('x', 'y')} and {cond} and {term} == {NEWV}, Node, SyntenyAssignment, Node, SyntenyAssignment)")
+        # NOT claimed here: "the new value is attained by one of the placements" and the ALL / ANY tag clauses (bounded run-time contract only)
+    POST.append(("frame", f"""forall(lambda a, b, c: implies(a != {U} or b != {S}, cell3v(table.g_val, a, b, c) == cell3v(old(table.g_val), a, b, c)
+                  and forall(lambda t: cell3t(table.g_val, table.g_tags, a, b, c, t) == cell3t(old(table.g_val), old(table.g_tags), a, b, c, t), Tag)), Node, Node, SyntenyAssignment)"""))
+    POST.append(("no-neg-inf", "forall(lambda a, b, c: cell3v(table.g_val, a, b, c) != -inf, Node, Node, SyntenyAssignment)"))
+    POST.append(("required-sets-unchanged", "lca_sets == old(lca_sets)"))
+
+    # ---- cuts around the two cell updates (one per parent kind; `kind` is the loop variable of the unrolled loop)
+    def cuts_for(pk):
+        before, end = [], []
+        names = [f"star{i}" for i in range(6)]
+        for i, (r0, r1, cost) in enumerate(FAMS):
+            e0, e1 = entry(0, pk, r0), entry(1, pk, r1)
+            before += [
+                f"assert {names[i]}._value == {cost} + {e0}._value + {e1}._value",
+                f"assert implies(exists(lambda a: a in {e0}._infos, Tag) and exists(lambda b: b in {e1}._infos, Tag), exists(lambda t: t in {names[i]}._infos, Tag))",
+                f"assert implies(not (exists(lambda a: a in {e0}._infos, Tag) and exists(lambda b: b in {e1}._infos, Tag)), {names[i]}._value == inf and not exists(lambda t: t in {names[i]}._infos, Tag))",
+                f"assert {names[i]}._value != -inf",
+            ]
+        for n in names:
+            before.append(f"assert implies(exists(lambda t: t in {n}._infos, Tag), exists(lambda i: 0 <= i and i < len(arg_candidates) and arg_candidates[i].value == {n}._value, Int))")
+        before.append("assert forall(lambda i: implies(0 <= i and i < len(arg_candidates), " + " or ".join(f"arg_candidates[i].value == {n}._value" for n in names) + "), Int)")
+        return before
+
+    def after_for(pk):
+        NEWV, OLDV = cellnew(pk), cellold(pk)
+        out = []
+        for i in range(6):
+            cond, term = family(pk, i, "x", "kx", "y", "ky")
+            out.append(f"assert not (star{i}._value < {NEWV})")
+        out.append(f"assert {NEWV} == {OLDV} or " + " or ".join(f"{NEWV} == star{i}._value" for i in range(6)))
+        return out
+
+    AFTER = ["if kind == SyntenyAssignment.LCA:\n" + "".join("    " + " ".join(x.split()) + "\n" for x in after_for("lca"))
+             + "else:\n" + "".join("    " + " ".join(x.split()) + "\n" for x in after_for("inh"))]
+    norm = lambda xs: "\n".join(" ".join(x.split()) for x in xs) + "\n"
+    # the two updates are the two iterations of `for kind in SyntenyAssignment` (LCA first): the cuts are selected by the loop variable
+    BEFORE = ["if kind == SyntenyAssignment.LCA:\n" + "".join("    " + " ".join(x.split()) + "\n" for x in cuts_for("lca"))
+              + "else:\n" + "".join("    " + " ".join(x.split()) + "\n" for x in cuts_for("inh"))]
+
     add(Contract(
         f"{M}:_compute_uspfs_entry",
         params={"species_lca": "LowestCommonAncestor", "root_species": "Node", "root_object": "Node", "lca_sets": "Map[Node, Set[Elem]]",
                 "table": "Table3", "costs": "Map[Event, Ext]"},
         requires=PRE,
-        ensures=[("aggregates-only", "True")],  # replaced below once the loop part is through
+        ensures=POST,
         modifies=["table.g_val", "table.g_tags"], globals=G, fuel=2,
         loops={1: LoopSpec(header="for desc_species in species_lca.tree.traverse()", index="k", length="n", invariants=INV)},
+        inline_calls=["_make_event_combinator"],
+        before_call={"Table3.cell3_update": BEFORE},
+        after={"table[root_object][root_species][kind].update(": AFTER},
         props=["C03", "C05"]))
